@@ -12,22 +12,22 @@ import tracer_replay as T
 
 def run(rep, tier, seed):
     q = tier == "quick"
-    mr = 2500 if q else None
+    mr = 1000 if q else None
     configs = [
         dict(name="drv_core", maxinstr=3, maxhist=1, ops="OpsDrv", points="NoPts", seeds="NoSeeds", drvx="XCat", drvv="VCat", drvw="WCat",
-             rec_kinds=("U", "A"), max_replay=mr),
-        dict(name="drv_arith", maxinstr=3, maxhist=1, ops="OpsDrvA", points="NoPts", seeds="NoSeeds", rec_kinds=("U", "A"), max_replay=mr),
+             rec_kinds=("U", "A", "V"), max_replay=mr),
+        dict(name="drv_arith", maxinstr=3, maxhist=1, ops="OpsDrvA", points="NoPts", seeds="NoSeeds", rec_kinds=("U", "A", "V"), max_replay=mr),
         dict(name="drv_buffered", maxinstr=3, maxhist=1, ops="OpsDrvP", points="NoPts", seeds="NoSeeds", prefix="buffered",
-             rec_kinds=("U", "A"), max_replay=mr),
-        dict(name="drv_dot_seta", maxinstr=3, maxhist=1, ops="OpsDrvC", points="NoPts", seeds="NoSeeds", rec_kinds=("U", "A"), max_replay=mr),
+             rec_kinds=("U", "A", "V"), max_replay=mr),
+        dict(name="drv_dot_seta", maxinstr=3, maxhist=1, ops="OpsDrvC", points="NoPts", seeds="NoSeeds", rec_kinds=("U", "A", "V"), max_replay=mr),
         dict(name="drv_hist2_buffered", maxinstr=2, maxhist=2, ops="OpsDrvP", points="NoPts", seeds="NoSeeds", prefix="buffered",
-             rec_kinds=("U", "A"), max_replay=mr),
+             rec_kinds=("U", "A", "V"), max_replay=mr),
         dict(name="drv_hist2", maxinstr=2, maxhist=2, ops="OpsDrv", points="PtsOne", seeds="SeedsB", rec_kinds=("U",), max_replay=mr),
     ]
     if not q:
         configs += [
-            dict(name="drv_arith2", maxinstr=3, maxhist=1, ops="OpsDrvB", points="NoPts", seeds="NoSeeds", drvx="XCat", rec_kinds=("U", "A")),
-            dict(name="drv_len4", maxinstr=4, maxhist=1, ops="OpsDrv", points="NoPts", seeds="NoSeeds", rec_kinds=("U", "A"), max_replay=20000),
+            dict(name="drv_arith2", maxinstr=3, maxhist=1, ops="OpsDrvB", points="NoPts", seeds="NoSeeds", drvx="XCat", rec_kinds=("U", "A", "V")),
+            dict(name="drv_len4", maxinstr=4, maxhist=1, ops="OpsDrv", points="NoPts", seeds="NoSeeds", rec_kinds=("U", "A", "V"), max_replay=20000),
         ]
     T.tracer_check(rep, configs, "C04")
     T.jacobian_utpm_check(rep, seed)
